@@ -23,7 +23,7 @@ ASSUMPTIONS = [
     "virtual clock; AF_UNIX socketpairs as in C04",
     "a 'probe' of an entry point is a maximal run of identical frames with no delivery in between",
 ]
-MUST = ["prefix_drop_then_refused", "same_command_repeated", "prefix_connections_refused", "prefix_idle_connection_dropped", "loop_change_previous_loop_open", "two_piece_answer_in_time", "lone_fragment_every_attempt", "slow_answer_in_time", "full_timeout_after_corrupt_answer", "final_silent_exact", "prefix_success_after_drops", "prefix_exhausted", "prefix_rejected", "prefix_send_error",
+MUST = ["large_retry_budgets", "prefix_drop_then_refused", "same_command_repeated", "prefix_connections_refused", "prefix_idle_connection_dropped", "loop_change_previous_loop_open", "two_piece_answer_in_time", "lone_fragment_every_attempt", "slow_answer_in_time", "full_timeout_after_corrupt_answer", "final_silent_exact", "prefix_success_after_drops", "prefix_exhausted", "prefix_rejected", "prefix_send_error",
         "prefix_recv_error", "loop_change", "connect_probe", "discover_probe", "search_probe", "search_answered", "detected_family_probe",
         "connected_then_silent"]
 EXHAUSTIVE = {"quick": True, "thorough": True}
@@ -408,7 +408,7 @@ def plan(tier, seed):
                     specs.append({"mode": "hist", "transport": transport, "ka": ka, "T": T, "R": R, "depth": depth,
                                   "newloop": newloop})
     for ka in (False, True):
-        for T, R in ((7, 0), (6, 1), (0.2, 2)):
+        for T, R in ((7, 0), (6, 1), (0.2, 2), (1, 11), (0.5, 40)):      # (incl. retry budgets well beyond the usual single digits)
             specs.append({"mode": "hist", "transport": "tcp", "ka": ka, "T": T, "R": R, "depth": 1, "newloop": False})
             specs.append({"mode": "hist", "transport": "udp", "ka": ka, "T": T, "R": R, "depth": 1, "newloop": False})
     specs.append({"mode": "entry", "tier": tier})
@@ -452,6 +452,13 @@ def run_shard(spec):
                             if fam == "ET":
                                 entry_case({"kind": "connected_then_silent", "family": fam, "port": port, "via": via,
                                             "timeout": t, "retries": r, "refuse_probes": True}, part)
+        for r in (11, 30):           # large retry budgets are honoured in full as well
+            for fam in ("ET", "DT", "ES"):
+                for port in ((8899, 502) if fam != "ES" else (8899,)):
+                    entry_case({"kind": "connect_silent", "family": fam, "port": port, "timeout": 1, "retries": r}, part)
+                    entry_case({"kind": "connected_then_silent", "family": fam, "port": port, "via": "connect", "timeout": 1, "retries": r}, part)
+            entry_case({"kind": "discover_silent", "port": 8899, "timeout": 1, "retries": r}, part)
+            part.count("large_retry_budgets")
         entry_case({"kind": "search", "timeout": 1, "retries": 0}, part)
         for d in (0.0, 0.4, 0.99):
             entry_case({"kind": "search_answered", "timeout": 1, "retries": 0, "delay": d}, part)
